@@ -163,7 +163,7 @@ def cbmc_cmd(grp, inst, extra=()):
     cmd += ['--unwind', str(inst.get('unwind', 4))]
     uws = list(inst.get('unwindset', []))
     mlb = inst.get('model_loop_bound', 42)
-    for lid in grp.model_loops(inst): uws.append('%s:%d' % (lid, mlb))
+    for lid in grp.model_loops(inst): uws.append('%s:%d' % (lid, 260 if lid.startswith('vplL_') else mlb))   # vplL_*: libc-style models over raw buffers
     lb = dict(DEFAULT_LOOP_BOUNDS); lb.update(grp.g.get('loop_bounds', {})); lb.update(inst.get('loop_bounds', {}))
     for pat, bound in lb.items():
         for fn in grp.report['translated']:
